@@ -90,7 +90,9 @@ def _observe(sb, n0):
     return {'exception': _exc_name(sb), 'runtime_feedback': [f.label for f in fbs],
             'stacks': (len(sb._current_patches), len(sb._current_stdout)),
             'stdout_is_real': sys.stdout is sc.REAL_STDOUT, 'sleep_is_real': time.sleep is sc.REAL_SLEEP,
-            'raw_output': sb.raw_output}
+            'raw_output': sb.raw_output,
+            # executions are numbered by position: the number the next one gets is the number of executions recorded
+            'context_ids': (sb._next_context_id, len(sb._context))}
 
 
 def make_body(programs, k_join, filtered, entry='run'):
@@ -251,6 +253,12 @@ def make_body(programs, k_join, filtered, entry='run'):
             fail('patch state not clean at quiescence', stacks=final['stacks'], leaked=leaked, detail=getattr(snap, 'detail', None))
         if final['probe_value'] != 42:
             fail('abandoned thread changed later results', probe=final['probe_value'])
+        for when, ob in (('when the timed-out call returns', first), ('after the later execution', second), ('at quiescence', final)):
+            if ob['context_ids'][0] != ob['context_ids'][1]:
+                # results carry the number of their execution; assertions look the execution up by that number
+                fail('execution numbering no longer matches the recorded executions', when=when,
+                     next_id=ob['context_ids'][0], recorded=ob['context_ids'][1])
+                break
         if S.drain_exhausted and pname not in ('swallow',):
             # a student that does not swallow BaseException must be stopped by the interruption; a thread
             # that keeps running keeps mutating the namespace later executions use
